@@ -1,6 +1,7 @@
 (** C16: lockset of the ingest worker pool, wait-before-read, error channel capacity. *)
 From Coq Require Import List NArith String Bool.
 From W.gen Require Import Extracted TieLib.
+From W.model Require Import Pool.
 Import ListNotations.
 Open Scope string_scope.
 Example tie_lockset :
@@ -18,6 +19,16 @@ Proof. vm_compute; reflexivity. Qed.
 Example tie_merge_errchan :
   match merge_errchan_extra, merge_errchan_extra_senders with
   | Some k, Some n => N.leb n k && N.eqb n 2
+  | _, _ => false
+  end = true.
+Proof. vm_compute; reflexivity. Qed.
+(* through the model: the premise of every positive theorem of props/C16.v *)
+Example tie_skeleton_ok :
+  skeleton_ok pool_accesses pool_post_accesses sorter_post_accesses pool_errchan_capacity sorter_send_kind = true.
+Proof. vm_compute; reflexivity. Qed.
+Example tie_merge_errchan_model :
+  match merge_errchan_extra, merge_errchan_extra_senders with
+  | Some k, Some n => merge_errchan_ok k n
   | _, _ => false
   end = true.
 Proof. vm_compute; reflexivity. Qed.
